@@ -5,7 +5,9 @@ Two ties to the code, both re-established on every run:
      threaded build) and REGENERATES coq/theories/ThreadImpl.v (the micro-operation programs
      of json_object_get/put and of the seed initialisation); the theorems of
      Properties_C18.v are about these definitions, so non-atomic code, a destroy decision
-     that re-reads the count, or a racy seed make the proofs fail to re-check;
+     that re-reads the count, or a racy seed make the proofs fail to re-check; a source shape
+     the translator does not know makes the generated ThreadImplCheck.v (a dependency of the
+     property file) fail, while ThreadImpl.v keeps marked placeholders so that (B) still runs;
  (B) the `thr` stream: harness/drv_thr.c built with -fsanitize=thread -DENABLE_THREADING,
      one freshly forked process per case; N in {2,4,8,16} threads on shared nodes with exact
      final bookkeeping, racing first use of the key hash, disjoint trees.
@@ -50,8 +52,9 @@ LEVEL_NOTE = ("Partial: atomicity of the __sync builtins and the hardware memory
               "regenerated micro-operation programs (tied to the C text by the translator, which is trusted) under sequentially consistent "
               "interleaving; ThreadSanitizer runs are supporting evidence over sampled schedules.")
 
-# the driver decides about reports itself (see drv_thr.c); make sure the environment does not override it
-os.environ["TSAN_OPTIONS"] = "halt_on_error=0 exitcode=0 report_signal_unsafe=0 atexit_sleep_ms=0"
+# the driver decides about reports itself (__tsan_default_options / __tsan_on_report in drv_thr.c);
+# make sure the environment does not override it
+os.environ.pop("TSAN_OPTIONS", None)
 
 _tr_info = {}
 _stats = {"volrd_cases": 0, "cases": 0, "ops": 0, "crashed_cases": 0}
@@ -67,21 +70,33 @@ def coq_extra():
     _tr_info.clear()
     _tr_info.update(info)
     th = os.path.join(fw.COQ, "theories")
-    v, vo = os.path.join(th, "ThreadImpl.v"), os.path.join(th, "ThreadImpl.vo")
-    stale = info["changed"] or not ok or not os.path.exists(vo) or os.path.getmtime(vo) < os.path.getmtime(v)
+
+    def stale(name, changed):
+        v, vo = os.path.join(th, name + ".v"), os.path.join(th, name + ".vo")
+        return changed or not os.path.exists(vo) or os.path.getmtime(vo) < os.path.getmtime(v)
+
+    def drop(*names):
+        for f in names:
+            try:
+                os.remove(os.path.join(th, f + ".vo"))
+            except OSError:
+                pass
+
     if not ok:
         print("C18: tr/atomics.py does not recognise the source: %s" % info.get("reason"))
-    if not stale:
-        # same text as the last checked one: `make` (timestamps) keeps the .vo files current
-        return []
-    # the regenerated file differs (or does not compile): nothing compiled against the old one may
-    # survive, and the file itself is compiled explicitly so that its failure is recorded
-    for f in ("ThreadImpl.vo", "ThreadProofs.vo", "Properties_C18.vo"):
-        try:
-            os.remove(os.path.join(th, f))
-        except OSError:
-            pass
-    return ["theories/ThreadImpl.v"]
+    files = []
+    # ThreadImpl.v always compiles (unrecognised functions carry marked placeholders), so the model
+    # driver and the runtime stream always build; ThreadImplCheck.v compiles only when everything
+    # was recognised, and Properties_C18.v depends on it.  When a generated text is new, nothing
+    # compiled against the old one may survive, and the file is compiled explicitly so that its
+    # failure is recorded by fw.coq_check.
+    if stale("ThreadImpl", info["changed"]):
+        drop("ThreadImpl", "ThreadProofs", "ThreadImplCheck", "Properties_C18")
+        files.append("theories/ThreadImpl.v")
+    if files or not ok or stale("ThreadImplCheck", info["check_changed"]):
+        drop("ThreadImplCheck", "Properties_C18")
+        files.append("theories/ThreadImplCheck.v")
+    return files
 
 
 def extra_coverage():
@@ -157,7 +172,7 @@ def parse_obs(o):
 def oracle(line, meta, impl):
     """direct, model-independent: exact counts demanded by the property text"""
     if "CRASH" in impl:
-        if "tsan" in impl:
+        if "tsan:race" in impl:
             return ("tsan-race", "ThreadSanitizer report (data race / misuse) in the threaded build: " + impl)
         return ("crash", "implementation crashed: " + impl)
     if impl in ("MISSING", "BADLINE", "FORKFAIL", "NODOMAIN"):
